@@ -523,8 +523,9 @@ def check(ctx):
     miss_raises = set()
     for n in walk_no_nested(miss.node):
         if isinstance(n, ast.Raise) and n.exc is not None:
-            c = n.exc.func if isinstance(n.exc, ast.Call) else n.exc
-            miss_raises.add(prog.resolve(miss.module, c))
+            from ..util import raised_class_exprs
+            for c in raised_class_exprs(miss.node, n):
+                miss_raises.add(prog.resolve(miss.module, c))
     nsites = 0
     protos = protocol_params(prog, region)
     raw_fns = returns_raw(prog, region, protos)
